@@ -77,3 +77,51 @@ Proof.
   cbn. rewrite !Rmult_0_l, !Rplus_0_r. tauto.
 Qed.
 Print Assumptions chain_SO2_log.
+
+(* SE2 log on its closed-form branch: X = (x, y, re, im) off the cut of atan2, theta = atan2(im, re) with theta^2 > eps.
+   The one comparison (theta^2 < eps) is stable near h = 0 because theta(h) is continuous there (tracks_atan2). *)
+Theorem chain_SE2_log eps x y re im dx dy dre dim j : 0 < eps -> (0 < re \/ (re < 0 /\ im <> 0)) ->
+  eps < atan2 im re * atan2 im re -> (j < 3)%nat ->
+  is_derive (fun h => entry 0 (@run_op RS eps GSE2 OLog [] 0%Z (at_h h [[x; y; re; im]] [[dx; dy; dre; dim]])) 0 j) 0
+    (snd (entry (0, 0) (@run_op (DS RS) (eps, 0) GSE2 OLog [] 0%Z (seed [[x; y; re; im]] [[dx; dy; dre; dim]])) 0 j)).
+Proof.
+  intros He Hcut Hgt Hj.
+  set (thf := fun h : R => atan2 (im + h * dim) (re + h * dre)).
+  assert (Dth : is_derive thf 0 ((re * dim - im * dre) / (re * re + im * im))).
+  { pose proof (tracks_atan2 (fun h => im + h * dim) (fun h => re + h * dre) (im, dim) (re, dre) (tracks_id im dim) (tracks_id re dre) Hcut) as [_ D].
+    exact D. }
+  assert (Hc : continuous (fun h => thf h * thf h) 0).
+  { apply (ex_derive_continuous (fun h => thf h * thf h)). eexists. apply (is_derive_mult thf thf 0 _ _ Dth Dth). intros; apply Rmult_comm. }
+  assert (T0 : thf 0 = atan2 im re) by (unfold thf; rewrite !Rmult_0_l, !Rplus_0_r; reflexivity).
+  assert (Hloc : locally 0 (fun h => eps < thf h * thf h)).
+  { apply (Hc (fun v => eps < v)). apply (open_gt eps). rewrite T0. exact Hgt. }
+  set (rD := @run_op (DS RS) (eps, 0) GSE2 OLog [] 0%Z (seed [[x; y; re; im]] [[dx; dy; dre; dim]])).
+  assert (ED : exists o, rD = Ok [o] /\ length o = 3%nat).
+  { unfold rD. cbn [run_op group_of arg bit nth seed combine map fst snd g_log SE2 out1]. unfold se2_log. destruct (se2_AB _ _ _ _ _). eexists. split; reflexivity. }
+  destruct ED as (o & ED & Lo). rewrite ED. cbn [entry nth]. change o with (nth 0 [o] []) at 1.
+  assert (EKh : forall h, kltb (FSh h) (kmul (FSh h) (se2_angle FS [line1 x dx; line1 y dy; line1 re dre; line1 im dim]) (se2_angle FS [line1 x dx; line1 y dy; line1 re dre; line1 im dim])) (fconst eps)
+                          = Rltb (thf h * thf h) eps) by (intros h; reflexivity).
+  assert (EK0 : kltb FS (kmul FS (se2_angle FS [line1 x dx; line1 y dy; line1 re dre; line1 im dim]) (se2_angle FS [line1 x dx; line1 y dy; line1 re dre; line1 im dim])) (fconst eps)
+                = Rltb (thf 0 * thf 0) eps) by reflexivity.
+  apply (run_op_chain eps GSE2 OLog [] 0%Z [[x; y; re; im]] [[dx; dy; dre; dim]] [o] 0 j); [|exact ED|cbn; lia|cbn [nth]; rewrite Lo; exact Hj|].
+  - apply (filter_imp (fun h => eps < thf h * thf h)); [intros h Hh|exact Hloc].
+    cbn [run_op group_of arg bit nth lineF combine map fst snd g_log SE2 out1]. unfold se2_log, se2_AB.
+    change (se2_angle (FSh h)) with (se2_angle FS). rewrite EKh, EK0, T0.
+    rewrite (Rltb_lt_false _ _ (Rlt_le _ _ Hh)), (Rltb_lt_false _ _ (Rlt_le _ _ Hgt)). reflexivity.
+  - cbn [run_op group_of arg bit nth lineF combine map fst snd g_log SE2 out1 entry]. unfold se2_log, se2_AB. rewrite EK0, T0, (Rltb_lt_false _ _ (Rlt_le _ _ Hgt)).
+    assert (Hth : atan2 im re <> 0) by (intros E0; rewrite E0 in Hgt; lra).
+    assert (Hc0 : 0 < re + 0 * dre \/ (re + 0 * dre < 0 /\ im + 0 * dim <> 0)) by (rewrite !Rmult_0_l, !Rplus_0_r; exact Hcut).
+    assert (Hth0 : atan2 (im + 0 * dim) (re + 0 * dre) <> 0) by (rewrite !Rmult_0_l, !Rplus_0_r; exact Hth).
+    (* A^2 + B^2 <> 0: A = sin/theta-like built from re, im; shown through its value *)
+    assert (Hne : im <> 0 \/ re <> 1).
+    { destruct (Req_dec im 0) as [E1|E1]; [|left; exact E1]. destruct (Req_dec re 1) as [E2|E2]; [|right; exact E2].
+      exfalso. apply Hth. rewrite E1, E2. unfold atan2. destruct (Rlt_dec 0 1); [|lra]. replace (0 / 1) with 0 by field. apply atan_0. }
+    assert (Hden : im / atan2 im re * (im / atan2 im re) + (1 - re) / atan2 im re * ((1 - re) / atan2 im re) <> 0).
+    { apply Rgt_not_eq. replace (im / atan2 im re * (im / atan2 im re) + (1 - re) / atan2 im re * ((1 - re) / atan2 im re))
+        with ((im * im + (1 - re) * (1 - re)) / (atan2 im re * atan2 im re)) by (field; exact Hth).
+      pose proof (Rle_0_sqr im) as S1. pose proof (Rle_0_sqr (1 - re)) as S2. unfold Rsqr in S1, S2.
+      apply Rdiv_lt_0_compat; [destruct Hne as [H|H]; [pose proof (Rsqr_pos_lt im H) as S3|pose proof (Rsqr_pos_lt (1 - re) ltac:(lra)) as S3]; unfold Rsqr in S3; lra|].
+      pose proof (Rsqr_pos_lt (atan2 im re) Hth) as S4. unfold Rsqr in S4. exact S4. }
+    destruct j as [|[|[|j]]]; [| | |exfalso; lia]; cbn; rewrite ?Rmult_0_l, ?Rplus_0_r in *; repeat split; try exact I; try assumption.
+Qed.
+Print Assumptions chain_SE2_log.
